@@ -10,9 +10,9 @@ HARNESSES = {
     'swar_kernel': {'crate': 'flussab', 'file': 'flussab/src/text.rs', 'overlay': 'kani/swar_kernel.rs', 'harnesses': ['swar_kernel'],
                     'fn': 'flussab::text::swar_ascii_digits_u64_le', 'complete': True,
                     'what': 'real SWAR kernel == byte-wise reference for all 2^64 words (loop-free; reference unwound 9 with unwinding assertions)'},
-    'lower_kernel': {'crate': 'flussab-btor2', 'file': 'flussab-btor2/src/token.rs', 'overlay': 'kani/lower_kernel.rs', 'harnesses': ['lower_kernel_fast', 'lower_kernel_cold'],
+    'lower_kernel': {'crate': 'flussab-btor2', 'file': 'flussab-btor2/src/token.rs', 'overlay': 'kani/lower_kernel.rs', 'harnesses': ['lower_kernel_fast'],
                      'fn': 'flussab_btor2::token::ascii_lowercase_u64', 'complete': True,
-                     'what': 'btor2 keyword scanner: SWAR fast path (all 2^64 words) and cold path (all inputs of 0..=8 bytes) == byte-wise reference, through the real DeferredReader'},
+                     'what': 'btor2 keyword scanner, SWAR fast path only: for all 2^64 words (16 bytes buffered by one refill of the real DeferredReader) length and masked word equal the byte-wise reference; the cold path harness (lower_kernel_cold) does not finish and is not registered'},
     'comb': {'crate': 'flussab', 'file': 'flussab/src/parser.rs', 'overlay': 'kani/comb.rs', 'complete': True,
              'harnesses': ['or_give_up_table', 'optional_table', 'matches_table', 'or_parse_table', 'or_always_parse_table', 'and_then_table',
                            'and_also_table', 'and_do_table', 'map_table', 'map_err_table', 'err_into_table', 'from_result_table',
@@ -58,6 +58,7 @@ def run_harness_group(name, timeout=1500, repo=None):
         for f in sorted(files):
             hh.update(open(os.path.join(root, f), 'rb').read())
     hh.update(ov.encode())
+    hh.update(','.join(h['harnesses']).encode())
     hh.update(kani_version().encode())
     key = 'kani-' + name + '-' + hh.hexdigest()[:24]
     os.makedirs(CACHE, exist_ok=True)
